@@ -435,6 +435,31 @@ def run (ctx):
             ctx.bad('R-CONTAIN', f, "the exception hook itself cannot raise (`%s`)" % norm(n)[:50],
                     "`%s` is the tuple of extra arguments the event was raised with: formatting it with %d conversion(s) raises TypeError unless it has exactly %d element(s) - "
                     "the hook fails instead of logging the handler's exception" % (n.right.id, nspec, nspec), (f.module, n), 'D6')
+  # what the hooks are handed as "exception info" and what they do with it agree: sys.exc_info() is a (type, value, traceback) triple
+  # that may be indexed and star-unpacked; sys.exc_info()[1] is the exception object, which may not.  The hook runs inside the raiser's
+  # except clause: what it raises escapes raiseEventNoErrors
+  for c in hk:
+    if len(c.args) < 5: continue
+    a5 = c.args[4]
+    kind = 'triple' if (isinstance(a5, ast.Call) and norm(a5.func) == 'sys.exc_info') else ('element' if isinstance(a5, ast.Subscript) and isinstance(a5.value, ast.Call) and norm(a5.value.func) == 'sys.exc_info' else None)
+    if kind is None: continue
+    for f in (hook, dflt):
+      if f is None or len(f.params) < 5: continue
+      pn = f.params[4]
+      uses = []
+      for x in ast.walk(f.node):
+        if isinstance(x, ast.Subscript) and isinstance(x.value, ast.Name) and x.value.id == pn and isinstance(x.ctx, ast.Load): uses.append(('triple', x))
+        if isinstance(x, ast.Starred) and isinstance(x.value, ast.Name) and x.value.id == pn: uses.append(('triple', x))
+        if isinstance(x, ast.keyword) and x.arg == 'exc_info' and isinstance(x.value, ast.Name) and x.value.id == pn: uses.append(('either', x.value))
+        if isinstance(x, ast.Attribute) and isinstance(x.value, ast.Name) and x.value.id == pn and isinstance(x.ctx, ast.Load): uses.append(('element', x))
+      wrong = [(k_, x) for k_, x in uses if k_ not in ('either', kind)]
+      fgk = q.cfg_of(f)
+      wrong = [(k_, x) for k_, x in wrong if not (lambda sn_: sn_ is not None and any(h_.ast.type is None or norm(h_.ast.type) in ('Exception', 'BaseException') for h_ in fgk.handlers_for(sn_)))(q.enclosing_stmt_node(fgk, x))]
+      ctx.ob('R-AGREE', f, "the hook uses its exception argument the way raiseEventNoErrors passes it (%s)" % ('sys.exc_info() triple' if kind == 'triple' else 'the exception object'), not wrong,
+             "%d use(s) agree" % len(uses) if not wrong else
+             "raiseEventNoErrors passes `%s` (%s) but %s does `%s`, which needs %s: the hook raises TypeError / AttributeError inside the except clause and the exception escapes raiseEventNoErrors - "
+             "error suppression propagates a handler's failure to the raiser after all" % (norm(a5), 'a triple' if kind == 'triple' else 'one exception object', f.qual, norm(wrong[0][1])[:40], 'a triple' if wrong[0][0] == 'triple' else 'an exception object'),
+             (f.module, wrong[0][1]) if wrong else f, 'D6')
   # ---- D7 weak handlers ------------------------------------------------------------------------
   cp = repo.cls(RV, 'CallProxy'); ci = cp.methods.get('__init__'); fm = cp.methods.get('_forgetMe')
   if ci is None or fm is None: raise AnalysisError("CallProxy.__init__/_forgetMe vanished")
